@@ -247,7 +247,16 @@ def run(c):
     c.rng.shuffle(jobs)
     c.rng.shuffle(pair_jobs)
     total_mutants = len(jobs) + len(pair_jobs)
-    jobs = jobs[:n_mut] + pair_jobs[:(n_mut // 2)]
+    # every scalar of the schema emptied and nulled is run in BOTH tiers (the sample below may skip a node in the quick tier;
+    # an empty string where the code takes the first character of a configured one is the classic case)
+    scal = set()
+    rc, out = vlib.sh([exe, "paths", os.path.join(base, "vs_full.schema.yaml")], env=vlib.SAN_ENV)
+    for l in out.splitlines():
+        if l.startswith("scalar "):
+            scal.add(l.split(" ", 1)[1])
+    always = [j for j in jobs if j[0] == "vs_full.schema.yaml" and j[1] in scal and j[2] in ("scalar:", "null")]
+    rest = [j for j in jobs if j not in always]
+    jobs = always + rest[:n_mut] + pair_jobs[:(n_mut // 2)]
     hist = c1.short_history("vs_full")
 
     def mut_job(j):
